@@ -96,6 +96,20 @@ Theorem C15_holds : forall g, clean g ->
 Proof. exact dir_linearizable. Qed.
 Print Assumptions C15_holds.
 
+(* identifiers under concurrency: in a linearizable history no identifier is handed to two
+   registrations, and along the explaining sequential order (real time respected) the
+   identifiers of the completed registrations increase strictly.  With C15_holds: every
+   history of the synchronised directory, whatever the interleaving. *)
+Theorem C15_hist_ids_increasing : forall h, linearizable astep_r ainit h ->
+  exists lin rest, Permutation h (lin ++ rest) /\ Forall (fun x => o_ret x = None) rest /\ rt_ok lin /\
+    StronglySorted N.lt (hist_ids lin) /\ Permutation (hist_ids h) (hist_ids lin).
+Proof. exact lin_ids_increasing. Qed.
+Print Assumptions C15_hist_ids_increasing.
+
+Theorem C15_hist_ids_distinct : forall h, linearizable astep_r ainit h -> NoDup (hist_ids h).
+Proof. exact lin_ids_distinct. Qed.
+Print Assumptions C15_hist_ids_distinct.
+
 (* the pinned code: no lock — two overlapping registrations of one name both succeed *)
 Theorem C15_refuted_unsync_local : forall g, cfg_unsync g = true ->
   exists h, dir_history g h /\ ~ linearizable astep_r ainit h.
